@@ -210,6 +210,12 @@ func (f *Frame) setPayloadLength(n int) *Frame {
 }
 
 func (f *Frame) SetPayload(b []byte) *Frame {
+	// The length field may need up to frameMaxHeaderLength bytes; a frame previously shrunk to a short payload (e.g. a
+	// reused pooled frame) might be shorter than that.
+	if len(*f) < frameMaxHeaderLength {
+		*f = util.ExtendSlice(*f, frameMaxHeaderLength)
+	}
+
 	f.setPayloadLength(len(b)) // set the length as it's used by `payloadOffset`.
 
 	*f = util.ExtendSlice(*f, f.payloadOffset()+len(b))
